@@ -27,3 +27,22 @@ Print Assumptions C01_utf8.
 Theorem C01_label_limit : forall n, write_utf_rejects n = (63 <? n).
 Proof. intro n. unfold write_utf_rejects, cmp_apply, write_utf_reject_op, write_utf_reject_bound. lia. Qed.
 Print Assumptions C01_label_limit.
+
+(* ... and the library's own decoder recovers exactly the same from every emitted datagram: the message is marked valid, nothing
+   escapes, questions, records and the four counts are the expected ones (no hypothesis on payload bytes is needed). *)
+From ZC Require Import Proofs.C01_library.
+Theorem C01_roundtrip_library : forall m ps now' frames, wf_msg m -> (130 <= frames)%nat -> packets_info m = Ok ps ->
+  Forall2 (fun pkt exp =>
+             let p := parse (fst pkt) now' None frames in
+             m_valid p = true /\ m_escaped p = None /\ m_questions p = fst exp /\ m_answers p = snd exp /\
+             (let '(nq, na, nau, nad) := snd pkt in
+              m_nq p = Z.of_nat nq /\ m_nans p = Z.of_nat na /\ m_nauth p = Z.of_nat nau /\ m_nadd p = Z.of_nat nad))
+          ps (expected_stream (o_multicast m) now' (o_questions m) (o_answers m) (o_authorities m) (o_additionals m) (map snd ps)).
+Proof. exact packets_roundtrip_library. Qed.
+Print Assumptions C01_roundtrip_library.
+
+(* every byte emitted is a byte, provided the caller's raw payload (addresses, TXT) consists of bytes *)
+Theorem C01_bytes_range : forall m ps, wf_msg m -> wf_payload m -> packets_info m = Ok ps ->
+  Forall (fun p => Forall (fun b => 0 <= b < 256) (fst p)) ps.
+Proof. exact packets_bytes_range_partial. Qed.
+Print Assumptions C01_bytes_range.
